@@ -1188,8 +1188,8 @@ class Console:
                 Console default. Defaults to ``None``.
         """
         if not objects:
-            self.line()
-            return
+            # an empty line is printed like anything else, so that render hooks (a live display) see it
+            objects = ("",)
 
         if soft_wrap is None:
             soft_wrap = self.soft_wrap
@@ -1299,7 +1299,7 @@ class Console:
             _stack_offset (int, optional): Offset of caller from end of call stack. Defaults to 1.
         """
         if not objects:
-            self.line()
+            self.print()
             return
         with self:
             renderables = self._collect_renderables(
